@@ -57,7 +57,7 @@ func CanonName(fn *ssa.Function) string {
 	if pkg == nil {
 		return rel
 	}
-	return pkg.Path() + "." + rel
+	return aliasCanon(pkg.Path() + "." + rel)
 }
 
 func Load(repo string) (*Program, error) {
@@ -126,6 +126,7 @@ func Load(repo string) (*Program, error) {
 			}
 		}
 	}
+	p.applySymbolHints()
 	return p, nil
 }
 
